@@ -25,7 +25,7 @@ def describe(tier):
                 "tree == evaluate_requirement_constraint_tree(...).conditions_fulfilled, and requirement_constraint_evaluation(expr) "
                 "(through injected evaluators) == mapping F->(True,conditional) N->(True,unconditional) U->(False,conditional) "
                 "UNKNOWN->(None,None). Expressions with <= 3 leaves are additionally evaluated with the answers delivered through the library's own "
-                "DictBased* evaluators (evaluator_factory), its ContentEvaluationResultBased* evaluators and user-style method-based "
+                "DictBased* evaluators (evaluator_factory), its ContentEvaluationResultBased* evaluators (fresh and one shared EvaluatableData object), JsonFileHintsProvider / JsonFilePackageResolver and user-style method-based "
                 "evaluators with per-instance state (a new instance per assignment), and four 3-key expressions (one with a repeated key) under all 6 permutations of "
                 "F/U/UNKNOWN and ALL completion orders of suspending evaluate_<key> coroutines (virtual event loop). Expressions with 2-3 leaves are "
                 "repeated with the first three requirement keys in each of the 5 other orders (first occurrence vs. string vs. numeric order). "
@@ -41,7 +41,7 @@ def describe(tier):
     }
 
 
-MODES = ("hardcoded", "cer", "methods")
+MODES = ("hardcoded", "cer", "methods", "cer-shared", "jsonfile")
 # histories (E2, depth 2): a FIRST operation on one expression (valid or invalid; through the transformer, the async entry point or
 # the validity check), then the evaluation of a valid expression that shares sub-expressions with it
 HIST_FIRST = ["([1] U [2005]) O [501]", "([1] O [2005]) X [901]", "([1] U [2005]) X [501] U [499]", "[501] U ([1] U [2005]) O [502]",
